@@ -70,11 +70,11 @@ def _bfs_kernel(rep, f, m, body, G, tag):
         bb = m.match(s, '$D += $N * %s' % L)
         if bb:
             D, N = norm(bb['D']), norm(bb['N'])
-    okb = D is not None and same_up_to_reordering(lp.body, ['%s += %s * %s' % (D, N, L), '%s += 1' % N, 'nPATH = np.dot(nPATH, %s)' % G, '%s = (nPATH != 0) * (%s == 0)' % (L, D)])
+    okb = D is not None and same_up_to_reordering(lp.body, ['%s += %s * %s' % (D, N, L), '%s += 1' % N, 'nPATH = np.dot(nPATH, %s)' % G, cn('%s = (nPATH != 0) * (%s == 0)' % (L, D))])
     rep.ob('K.bfs-adds-length-to-newly-reached-pairs-only', f, '; '.join(b)[:150], okb,
            'each round must add the current length n to exactly the pairs reached for the first time (walk matrix nonzero and distance still 0), then advance n' + tag, line=lp.lineno)
     init = {norm(s.targets[0]): norm(s.value) for s in body if isinstance(s, ast.Assign) and isinstance(s.targets[0], ast.Name) and s.lineno < lp.lineno}
-    oki = D is not None and init.get(D) in ('np.eye(len(%s))' % G, 'np.eye(n)') and init.get('nPATH') == '%s.copy()' % G and init.get(L) == 'nPATH != 0' and init.get('n') == '1'
+    oki = D is not None and init.get(D) in ('np.eye(len(%s))' % G, 'np.eye(n)') and init.get('nPATH') in ('%s.copy()' % G, G) and init.get(L) == 'nPATH != 0' and init.get('n') == '1'
     rep.ob('T.bfs-start-state', f, 'D=%s; n=%s; nPATH=%s; L=%s' % (init.get(D), init.get('n'), init.get('nPATH'), init.get(L)), oki,
            'search must start with the identity as distance marker (diagonal never "unreached"), length 1 and the adjacency matrix as first walk matrix' + tag, line=f.node.lineno)
     return lp, D
@@ -211,19 +211,19 @@ def _floyd(prog, rep):
     z = [s for s in stmts if m.match(s, 'SPL[SPL == 0] = np.inf')]
     cp = [s for s in stmts if m.match(s, "SPL = %s.copy().astype('float')" % A) or m.match(s, 'SPL = %s.copy().astype(float)' % A) or m.match(s, 'SPL = %s.astype(float)' % A)]
     ok = len(z) == 1 and len(cp) == 1 and len(kl) == 1 and cp[0].lineno < z[0].lineno < kl[0].lineno and \
-        any(norm(t) in ('transform is not None',) and not pol for t, pol, k, o in pm.guards(z[0]))
+        any((norm(t) == 'transform is not None' and not pol) or (norm(t) == 'transform is None' and pol) for t, pol, k, o in pm.guards(z[0]))
     rep.ob('T.absent-connection-is-inf-before-relaxation', f, '; '.join(norm(s) for s in cp + z), ok,
            'without a transform, 0 (no connection) must become inf on a float copy before the k-loop', line=f.node.lineno)
     tr = {norm(s.value) for s in stmts if isinstance(s, ast.Assign) and norm(s.targets[0]) == 'SPL' and pm.guards(s) and any(norm(t).startswith('transform ==') for t, pol, k, o in pm.guards(s))}
     rep.ob('T.transforms', f, '; '.join(sorted(tr)), tr == {'-np.log(%s)' % A, '1 / %s' % A}, "transforms must be -log(w) and 1/w (absent connections map to inf by themselves)", line=f.node.lineno)
     if len(kl) == 1:
         b = [norm(s) for s in kl[0].body]
-        okk = 'i2k_k2j = np.repeat(SPL[:, [k]], n, 1) + np.repeat(SPL[[k], :], n, 0)' in b and 'path = SPL > i2k_k2j' in b and cn('SPL = np.min(np.stack([SPL, i2k_k2j], 2), 2)') in b \
-            and b.index('path = SPL > i2k_k2j') < b.index(cn('SPL = np.min(np.stack([SPL, i2k_k2j], 2), 2)'))
+        okk = 'i2k_k2j = np.repeat(SPL[:, [k]], n, 1) + np.repeat(SPL[[k], :], n, 0)' in b and cn('path = SPL > i2k_k2j') in b and cn('SPL = np.min(np.stack([SPL, i2k_k2j], 2), 2)') in b \
+            and b.index(cn('path = SPL > i2k_k2j')) < b.index(cn('SPL = np.min(np.stack([SPL, i2k_k2j], 2), 2)'))
         rep.ob('K.floyd-strict-improvement-then-minimum', f, '; '.join(b)[:160], okk,
                'for every k: candidate = SPL[i,k] + SPL[k,j]; pairs with a strictly shorter candidate are recorded from the *old* SPL, then SPL takes the minimum', line=kl[0].lineno)
     dz = [norm(s) for s in f.node.body if isinstance(s, ast.Assign) and kl and s.lineno > kl[0].lineno]
-    okd = 'I = np.eye(n) > 0' in dz and 'SPL[I] = 0' in dz and ('hops[I], Pmat[I] = (0, 0)' in dz or 'Pmat[I] = 0' in dz)
+    okd = cn('I = np.eye(n) > 0') in dz and 'SPL[I] = 0' in dz and ('hops[I], Pmat[I] = (0, 0)' in dz or 'Pmat[I] = 0' in dz)
     rep.ob('T.diagonal-of-all-outputs-reset', f, '; '.join(dz)[:160], okd, 'after the k-loop the diagonals of lengths and next-hop matrix must be reset (hop counts of self-pairs: see C12)', line=f.node.lineno)
 
 
@@ -407,8 +407,9 @@ def _clones(prog, rep):
     if g is not None:
         lf = [s for s in f.node.body if isinstance(s, ast.While)]
         lg = [s for s in g.node.body if isinstance(s, ast.While)]
-        a = [x.replace(f.params[0], 'G') for x in _loop_sig(lf[0].body)] if lf else None
-        b = [x.replace(g.params[0], 'G') for x in _loop_sig(lg[0].body)] if lg else None
+        import re
+        a = [re.sub(r'\b%s\b' % re.escape(f.params[0]), 'G', x) for x in _loop_sig(lf[0].body)] if lf else None
+        b = [re.sub(r'\b%s\b' % re.escape(g.params[0]), 'G', x) for x in _loop_sig(lg[0].body)] if lg else None
         same = a is not None and b is not None and lf and lg and same_up_to_reordering(
             [spelling.parse(x).body[0] for x in b], a)
         rep.ob('C.private-bfs-is-a-clone-of-distance_bin', g, 'loop body: %s' % '; '.join(b or [])[:120], bool(same),
